@@ -7,10 +7,14 @@ import (
 	"flag"
 	"fmt"
 	"os"
+	"path/filepath"
+	"strconv"
 	"time"
 
+	"verif/internal/gencheck"
 	"verif/internal/plugin"
 	"verif/internal/puppetdesc"
+	"verif/internal/report"
 
 	"google.golang.org/protobuf/types/descriptorpb"
 )
@@ -28,6 +32,14 @@ func main() {
 		out := fs.String("out", "", "output directory")
 		fs.Parse(os.Args[2:])
 		if err := genPuppet(*gorumsBin, *goBin, *out); err != nil {
+			fmt.Fprintln(os.Stderr, "vgen:", err)
+			os.Exit(1)
+		}
+	case "check":
+		os.Exit(check(os.Args[2], os.Args[3]))
+	case "regen":
+		// vgen regen <file.pb.go> <param> <outdir>: regenerate the gorums file(s) for a committed .pb.go
+		if err := regen(os.Args[2], os.Args[3], os.Args[4]); err != nil {
 			fmt.Fprintln(os.Stderr, "vgen:", err)
 			os.Exit(1)
 		}
@@ -61,4 +73,70 @@ func genPuppet(gorumsBin, goBin, out string) error {
 		return fmt.Errorf("expected 2 generated files, got %d", len(all))
 	}
 	return plugin.WriteFiles(out, all)
+}
+
+func verifDir() string {
+	if d := os.Getenv("VERIF_DIR"); d != "" {
+		return d
+	}
+	return "/verif"
+}
+
+func seed() int64 {
+	s, err := strconv.ParseInt(os.Getenv("VERIF_SEED"), 10, 64)
+	if err != nil {
+		return 1
+	}
+	return s
+}
+
+func bins() gencheck.Bins {
+	v := verifDir()
+	return gencheck.Bins{Gorums: filepath.Join(v, "build/bin/protoc-gen-gorums"), Go: filepath.Join(v, "build/bin/protoc-gen-go"), Repo: "/repo", Verif: v}
+}
+
+func check(prop, tier string) int {
+	switch prop {
+	case "C17":
+		r := report.New(prop, tier, seed(), "exploration")
+		r.Rule = "every committed *_gorums.pb.go / zorums dev file / template_static.go regenerated with the working-tree plugin from the descriptor embedded in its sibling .pb.go and compared as ASTs (comments stripped); " +
+			"client Method literal, RegisterHandler key, runtime entry point and ServerStream flag of every emitted stub compared with the descriptor; behavioural binding conformance on the regenerated puppet service; distinct = file or method"
+		gencheck.RunC17Golden(r, bins())
+		gencheck.RunC17Synth(r, bins(), tier, seed())
+		if veng := os.Getenv("VERIF_VENG"); veng != "" {
+			gencheck.MergeChild(r, veng, "C17", tier)
+		}
+		return r.Finish(verifDir(), 10)
+	case "C16":
+		r := report.New(prop, tier, seed(), "exploration")
+		gencheck.RunC16(r, bins(), tier, seed())
+		return r.Finish(verifDir(), 20)
+	}
+	fmt.Fprintln(os.Stderr, "unknown property", prop)
+	return 2
+}
+
+func regen(pbgo, param, outdir string) error {
+	fd, err := gencheck.ExtractDesc(pbgo)
+	if err != nil {
+		return err
+	}
+	b := bins()
+	// dependencies living in the repository (not linked): sibling extraction is not needed for the repo's own files
+	req, err := plugin.Request([]*descriptorpb.FileDescriptorProto{fd}, []string{fd.GetName()}, param)
+	if err != nil {
+		return err
+	}
+	res := plugin.Run(b.Gorums, req, 30*time.Second, "")
+	if res.Exit != 0 || res.Resp == nil || res.Resp.Error != nil {
+		return fmt.Errorf("plugin: exit=%d %s %s", res.Exit, res.Resp.GetError(), res.Stderr)
+	}
+	for name, content := range res.Files() {
+		p := filepath.Join(outdir, filepath.Base(name))
+		if err := os.WriteFile(p, []byte(content), 0o644); err != nil {
+			return err
+		}
+		fmt.Println("wrote", p)
+	}
+	return nil
 }
